@@ -12,7 +12,7 @@ From CAres.Core Require Import AllocFault.
 From CAres.Dsa Require Import Array Array_alloc.
 From CAres.Alloc Require Import ListAlloc ListAlloc_proofs BufAlloc BufAlloc_proofs
      HtableAlloc HtableAlloc_proofs SendAlloc SendAlloc_proofs Oracle.
-From CAres.Alloc Require C19Containers DupAlloc DupAlloc_proofs.
+From CAres.Alloc Require C19Containers DupAlloc DupAlloc_proofs SendWork SendWork_proofs.
 From CAres.Dsa Require LList SList Htable Htable_proofs Buf Buf_proofs.
 From CAres.Wire Require Record Write Parse.
 From Coq Require Import Permutation.
@@ -226,3 +226,24 @@ Theorem C14_record_duplicate_atomic : forall (f : oracle) kw kp src h,
      (exists bytes, Write.dns_write src = Ok bytes /\ Parse.dns_parse bytes 0%Z = Err st)).
 Proof. exact DupAlloc_proofs.record_duplicate_spec. Qed.
 Print Assumptions C14_record_duplicate_atomic.
+
+(* ---- the submission path with EVERY live request in the state (Alloc/SendWork.v): the branch
+        "write refused -> handle_conn_error -> ares_close_connection -> every other request of
+        the connection requeued -> the request itself requeued" is inside the model; the mutual
+        recursion is a work stack with fuel that is shown to suffice.  For every oracle and
+        environment: the run completes (no double free), every request is called back at most
+        once, a request that was called back is gone, all others are still there, and the
+        ledger balances with the same base before and after ---- *)
+Theorem C14_send_all_requests_exactly_once : forall f E ch q h base,
+  NoDup (SendWork_proofs.qids (SendWork.w_queries ch)) ->
+  SendWork_proofs.OS base (SendWork_proofs.all_qblks (SendWork.w_queries ch) ++ SendWork_proofs.all_cblks (SendWork.w_conns ch)) h ->
+  (forall q', In q' (SendWork.w_queries ch) -> SendWork_proofs.q_ok (SendWork.w_conns ch) q') ->
+  In q (SendWork.w_queries ch) -> SendWork_proofs.detached q ->
+  exists ch' log h', SendWork.w_submit f E ch q h = Ok ((ch', log), h') /\
+    NoDup (map fst log) /\
+    (forall qid, In qid (map fst log) -> ~ In qid (SendWork_proofs.qids (SendWork.w_queries ch'))) /\
+    Permutation (SendWork_proofs.qids (SendWork.w_queries ch') ++ map fst log) (SendWork_proofs.qids (SendWork.w_queries ch)) /\
+    SendWork_proofs.OS base (SendWork_proofs.all_qblks (SendWork.w_queries ch') ++ SendWork_proofs.all_cblks (SendWork.w_conns ch')) h' /\
+    (forall q', In q' (SendWork.w_queries ch') -> SendWork_proofs.q_ok (SendWork.w_conns ch') q').
+Proof. exact SendWork_proofs.send_all_requests. Qed.
+Print Assumptions C14_send_all_requests_exactly_once.
